@@ -179,6 +179,12 @@ func init() {
 	})
 	reg(rtPkg+"Confirming", func(fr *frame, args []Value) Value { return fr.it.tt.fls })
 	reg(rtPkg+"Symbolic", func(fr *frame, args []Value) Value { return fr.it.tt.tru })
+	reg(rtPkg+"Tier", func(fr *frame, args []Value) Value {
+		if fr.it.cfg.tier == "thorough" {
+			return fr.it.mkInt(1)
+		}
+		return fr.it.mkInt(0)
+	})
 	reg(rtPkg+"Terminates", func(fr *frame, args []Value) Value {
 		fr.it.cfg.hangIsViolation = true
 		return nil
